@@ -322,7 +322,7 @@ PROPS = {
         ],
     },
     "C15": {
-        "title": "Cookies: Set-Cookie formatting (deductive) and request parsing (bounded)",
+        "title": "Cookies: Set-Cookie formatting and request parsing",
         "design_ref": "DESIGN.md section 3 (C15)",
         "technique": "Verus contracts on the real `impl Display for Cookie` and `impl From<Cookie> for AsciiString` (write! expanded by rule R12 over the "
                      "Display-as-contract model) against a stage-wise text specification; theorem over the specification: an RFC 6265 section 5.2 "
@@ -334,16 +334,22 @@ PROPS = {
                       "cannot panic, and the header value is exactly that text. Theorem (thm_cookie_reads_back): for RFC-valid inputs (name "
                       "without ';' '=' and edge blanks, value / domain / path without ';' and edge blanks) the RFC 6265 5.2 algorithm -- cut at "
                       "the first ';', split the pair at its first '=', then attribute by attribute -- returns exactly the name, the value and "
-                      "the list [Domain, Expires, HttpOnly, Max-Age, Path, SameSite, Secure] restricted to the ones set, with their values.",
-        "level_note": "Request side (Cookie header -> map): bounded only -- stand-in c15 runs the real read_http_request on every Cookie value over "
-                      "the alphabet {a, b, '=', ';', ' '} up to 6 characters (7 thorough), pairs of fields and a corpus, against the parsing the "
-                      "property states; never counted as proved. Assumed: the std::fmt model of rule R12, Display of u64, Duration::as_secs, "
+                      "the list [Domain, Expires, HttpOnly, Max-Age, Path, SameSite, Secure] restricted to the ones set, with their values. "
+                      "Request side (unit cookiereq): the Cookie loop of read_http_request, extracted as a region with its two nested loops under "
+                      "invariants, fills the map with exactly the fold of `name = value` pairs over the Cookie fields in order and their pieces in "
+                      "order (so later duplicates override earlier ones, across fields too), name and value split at the first '=', and returns "
+                      "MalformedCookieHeader iff some non-empty piece has no '='.",
+        "level_note": "Request side: the iterator chains `split(';').map(str::trim).filter(non-empty)` and `splitn(2, '=')` enter through rule-S1 "
+                      "stand-ins keyed to their exact tokens, with the assumed meaning of those std functions written out as spec functions "
+                      "(cut at ';', trim ASCII blanks, drop empty pieces; cut at the first '='); HashMap::insert overwrites (assumed). The bounded "
+                      "stand-in c15 additionally runs the real read_http_request on every Cookie value over {a, b, '=', ';', ' '} up to 6 characters "
+                      "(7 thorough) and pairs of fields. Assumed: the std::fmt model of rule R12, Display of u64, Duration::as_secs, "
                       "`t != UNIX_EPOCH` and `d > Duration::ZERO` as predicates (rule S1, keyed to the exact comparisons), iso8601_utc as a "
                       "function of the instant yielding ASCII without ';', `format!(\"{cookie}\")` = the Display output, AsciiString's type "
                       "invariant (its constructors are proved in unit headers). Not covered: interpretation of attribute values by a client "
                       "(domain matching, date parsing of Expires -- the library writes ISO 8601, which RFC 6265 clients ignore), Cookie::new's "
                       "panics on empty / non-ASCII names, one Set-Cookie field per cookie at the Response level (HeaderList::add, C14).",
-        "verus": ["cookie"],
+        "verus": ["cookie", "cookiereq"],
         "verus_thorough": [],
         "kani": [],
         "witness": "c15",
@@ -355,7 +361,7 @@ PROPS = {
             "RFC-valid inputs are a precondition of the read-back theorem (cookie_ok), as in the property statement",
         ],
         "not_covered": [
-            "request-side cookie parsing (split / trim / splitn chains into a HashMap): bounded stand-in c15 only",
+            "the std meaning of str::split / trim / filter / splitn and HashMap::insert (assumed through stand-ins); that the map is handed to the handler unchanged (struct literal at the end of read_http_request)",
             "client-side interpretation of attribute values (Expires date syntax, Domain matching)",
             "Cookie::new / with_domain / with_path panics on invalid input",
         ],
@@ -550,7 +556,7 @@ PROPS = {
 # are listed in its evidence as notes (they are another property's alarm, or an unproved supporting contract).
 UNIT_OWNER = {
     "time": "C16", "chunked": "C07", "headers": "C14", "copy": "C09", "body": "C09", "conn": "C05", "head": "C01",
-    "parse": "C02", "logset": "C19", "logwriter": "C19", "jsonl": "C17", "cookie": "C15", "timefmt": "C16", "tryread": "C02", "logwrap": "C18", "framing": "C03", "respguard": "C06", "respwrite": "C06", "errresp": "C20",
+    "parse": "C02", "logset": "C19", "logwriter": "C19", "jsonl": "C17", "cookie": "C15", "timefmt": "C16", "tryread": "C02", "logwrap": "C18", "cookiereq": "C15", "framing": "C03", "respguard": "C06", "respwrite": "C06", "errresp": "C20",
 }
 SCOPE = {
     # total request reading also needs the parsers to be panic-free
